@@ -47,3 +47,32 @@ Definition C04_mon := mon c04_chk.
 (* the monitor without the clause the pinned code violates (create with a timeout already in the past) *)
 Definition C04_mon_partial (tr : list (directive * list obs)) : list viol :=
   filter (fun v => negb (fst v =? 402)) (C04_mon tr).
+
+(* 404 (evaluated at the moment a coroutine hands a completion to the store, tick time t): the command either is the
+   time-out of a promise whose deadline has been reached (completion time = timeout <= t, the time-out state, empty
+   value, no key) or installs a caller's state decided NOW and strictly before the deadline (completion time = t <
+   timeout).  A request handled at or after the deadline can therefore never install the caller's state or value,
+   whatever completion time it stamps. *)
+Definition c04_emit (t : Z) (d : db) (u : update_promise_cmd) : bool :=
+  match find_promise (up_id u) d with
+  | None => true      (* nothing to complete: the guarded update will not find a pending row *)
+  | Some q =>
+    ((up_completed u =? p_timeout q) && (p_timeout q <=? t) && (up_state u =? timedout_state (p_tags q)) &&
+     smap_eqb (up_vh u) [] && String.eqb (up_vd u) EmptyString && match up_ikey u with None => true | Some _ => false end) ||
+    ((up_completed u =? t) && (t <? p_timeout q) && user_state_b (up_state u))
+  end.
+
+Definition c04e_chk : checker := fun now d dir ob =>
+  match dir with
+  | DTick t _ _ _ =>
+    flat_map (fun o => match o with
+                       | OInst _ subs _ =>
+                         flat_map (fun s => match s with
+                                            | SStore cs => flat_map (fun c => match c with
+                                                                              | UpdatePromise u => if c04_emit t d u then [] else [404]
+                                                                              | _ => [] end) cs
+                                            | _ => [] end) subs
+                       | _ => [] end) ob
+  | _ => []
+  end.
+Definition C04e_mon := mon c04e_chk.
